@@ -1,4 +1,448 @@
-//! `wire`: not built yet.
-pub fn run_case(_line: &str) -> String {
-    "unimplemented".to_string()
+//! `wire`: every metric entry point of StatsdClient, in every call form, on a client with a
+//! recording, scripted MetricSink and a logging error handler.
+//!
+//! case:  X <prefix> <dtags> <dcid> <script> <ncalls> { <form> <kind> <arg> <key> <ops> }*
+//!        K <kind> <prefix> <key> <arg>                       (standalone constructors)
+//!        F <bits>;<bits>;...                                 (std Display text of f64 bit patterns)
+//!   strings are hex ("_" = empty); "~" = None; "-" = empty list
+//!   dtags  = comma list of k<hex>:<hex> | v<hex>
+//!   script = comma list of a | r<kind index>.<payload id>     (exhausted = accept)
+//!   form   = T (…_with_tags + ops + try_send) | P (plain method, no ops) | Q (…_with_tags + ops + send)
+//!   kind   = c ms g m h d s
+//!   arg    = i64:<dec> i32:<dec> u64:<dec> u32:<dec> f64:<bits> dur:<secs>.<nanos> vu64:<dec;…>
+//!            vf64:<bits;…> vdur:<s.n;…> incr decr  user:<s|ps|u|pu|f|pf>:<…>   (user = a harness type whose
+//!            To*Value impl returns the given MetricValue)
+//!   ops    = comma list of t<hex>:<hex> | v<hex> | c<hex> | T<dec> | r<bits>
+//! observation (X): per call  <ret>,<emitted>,<handled>  joined by "|"
+//!   ret = ok:<hex of Metric::as_metric_str> | einv | eio:<kind index>.<payload id> | unit | panic
+//!   emitted = "~" or hex strings joined by "+";  handled = "~" or errors joined by "+"
+use crate::util::{catch, hex, payload_of, unhex_str, Payload};
+use cadence::ext::{
+    MetricValue, ToCounterValue, ToDistributionValue, ToGaugeValue, ToHistogramValue, ToMeterValue, ToSetValue,
+    ToTimerValue,
+};
+use cadence::prelude::*;
+use cadence::{
+    Counter, Distribution, ErrorKind, Gauge, Histogram, Meter, Metric, MetricBuilder, MetricError, MetricResult,
+    MetricSink, Set, StatsdClient, Timer,
+};
+use std::collections::VecDeque;
+use std::error::Error;
+use std::io;
+use std::sync::{Arc, Mutex};
+use std::time::Duration;
+
+pub const IO_KINDS: [io::ErrorKind; 12] = [
+    io::ErrorKind::NotFound,
+    io::ErrorKind::PermissionDenied,
+    io::ErrorKind::ConnectionRefused,
+    io::ErrorKind::ConnectionReset,
+    io::ErrorKind::BrokenPipe,
+    io::ErrorKind::WouldBlock,
+    io::ErrorKind::InvalidInput,
+    io::ErrorKind::TimedOut,
+    io::ErrorKind::Interrupted,
+    io::ErrorKind::Other,
+    io::ErrorKind::UnexpectedEof,
+    io::ErrorKind::OutOfMemory,
+];
+
+pub fn unhex0(s: &str) -> String {
+    if s == "_" {
+        String::new()
+    } else {
+        unhex_str(s)
+    }
+}
+
+pub fn hex0(s: &[u8]) -> String {
+    if s.is_empty() {
+        "_".to_string()
+    } else {
+        hex(s)
+    }
+}
+
+#[derive(Clone, Debug)]
+pub enum SinkOutcome {
+    Accept,
+    Refuse(usize, u64),
+}
+
+#[derive(Clone)]
+pub struct RecSink {
+    pub log: Arc<Mutex<Vec<String>>>,
+    pub script: Arc<Mutex<VecDeque<SinkOutcome>>>,
+}
+
+impl MetricSink for RecSink {
+    fn emit(&self, metric: &str) -> io::Result<usize> {
+        self.log.lock().unwrap().push(metric.to_string());
+        match self.script.lock().unwrap().pop_front() {
+            None | Some(SinkOutcome::Accept) => Ok(metric.len()),
+            Some(SinkOutcome::Refuse(k, id)) => Err(io::Error::new(IO_KINDS[k % IO_KINDS.len()], Payload(id))),
+        }
+    }
+}
+
+pub fn canon_err(e: &MetricError) -> String {
+    match e.kind() {
+        ErrorKind::InvalidInput => "einv".to_string(),
+        ErrorKind::IoError => match e.source().and_then(|s| s.downcast_ref::<io::Error>()) {
+            Some(ioe) => {
+                let k = IO_KINDS.iter().position(|x| *x == ioe.kind());
+                match (k, payload_of(ioe)) {
+                    (Some(k), Some(id)) => format!("eio:{}.{}", k, id),
+                    _ => "eio:?".to_string(),
+                }
+            }
+            None => "eio:nosource".to_string(),
+        },
+    }
+}
+
+#[derive(Clone, Debug)]
+pub enum Arg {
+    I64(i64),
+    I32(i32),
+    U64(u64),
+    U32(u32),
+    F64(f64),
+    Dur(Duration),
+    VU64(Vec<u64>),
+    VF64(Vec<f64>),
+    VDur(Vec<Duration>),
+    Incr,
+    Decr,
+    User(UserVal),
+}
+
+/// A user-defined value type: its To*Value impls return the wrapped MetricValue as is.
+#[derive(Clone, Debug)]
+pub struct UserVal(pub MetricValue);
+macro_rules! user_impl {
+    ($($tr:ident),*) => {$(
+        impl $tr for UserVal {
+            fn try_to_value(self) -> MetricResult<MetricValue> {
+                Ok(self.0)
+            }
+        }
+    )*};
+}
+user_impl!(ToCounterValue, ToTimerValue, ToGaugeValue, ToMeterValue, ToHistogramValue, ToDistributionValue, ToSetValue);
+
+fn f64_of_bits(s: &str) -> f64 {
+    f64::from_bits(u64::from_str_radix(s, 16).expect("f64 bits"))
+}
+
+fn parse_dur(s: &str) -> Duration {
+    let (a, b) = s.split_once('.').expect("dur");
+    Duration::new(a.parse().unwrap(), b.parse().unwrap())
+}
+
+fn list<T>(s: &str, f: impl Fn(&str) -> T) -> Vec<T> {
+    if s == "-" {
+        vec![]
+    } else {
+        s.split(';').map(f).collect()
+    }
+}
+
+pub fn parse_arg(s: &str) -> Arg {
+    if s == "incr" {
+        return Arg::Incr;
+    }
+    if s == "decr" {
+        return Arg::Decr;
+    }
+    let (ty, v) = s.split_once(':').expect("arg");
+    match ty {
+        "i64" => Arg::I64(v.parse().unwrap()),
+        "i32" => Arg::I32(v.parse().unwrap()),
+        "u64" => Arg::U64(v.parse().unwrap()),
+        "u32" => Arg::U32(v.parse().unwrap()),
+        "f64" => Arg::F64(f64_of_bits(v)),
+        "dur" => Arg::Dur(parse_dur(v)),
+        "vu64" => Arg::VU64(list(v, |x| x.parse().unwrap())),
+        "vf64" => Arg::VF64(list(v, f64_of_bits)),
+        "vdur" => Arg::VDur(list(v, parse_dur)),
+        "user" => {
+            let (var, w) = v.split_once(':').expect("user");
+            Arg::User(UserVal(match var {
+                "s" => MetricValue::Signed(w.parse().unwrap()),
+                "ps" => MetricValue::PackedSigned(list(w, |x| x.parse().unwrap())),
+                "u" => MetricValue::Unsigned(w.parse().unwrap()),
+                "pu" => MetricValue::PackedUnsigned(list(w, |x| x.parse().unwrap())),
+                "f" => MetricValue::Float(f64_of_bits(w)),
+                "pf" => MetricValue::PackedFloat(list(w, f64_of_bits)),
+                _ => panic!("bad user variant"),
+            }))
+        }
+        _ => panic!("bad arg type {}", ty),
+    }
+}
+
+#[derive(Clone, Debug)]
+pub enum Bop {
+    Tag(String, String),
+    TagValue(String),
+    Container(String),
+    Timestamp(u64),
+    Rate(f64),
+}
+
+pub fn parse_ops(s: &str) -> Vec<Bop> {
+    if s == "-" {
+        return vec![];
+    }
+    s.split(',')
+        .map(|t| {
+            let (h, r) = t.split_at(1);
+            match h {
+                "t" => {
+                    let (k, v) = r.split_once(':').expect("tag");
+                    Bop::Tag(unhex0(k), unhex0(v))
+                }
+                "v" => Bop::TagValue(unhex0(r)),
+                "c" => Bop::Container(unhex0(r)),
+                "T" => Bop::Timestamp(r.parse().unwrap()),
+                "r" => Bop::Rate(f64_of_bits(r)),
+                _ => panic!("bad op {}", t),
+            }
+        })
+        .collect()
+}
+
+#[derive(Clone, Copy, PartialEq, Debug)]
+pub enum Form {
+    TrySend,
+    Plain,
+    Quiet,
+}
+
+fn ret_of<T: Metric>(r: MetricResult<T>) -> String {
+    match r {
+        Ok(m) => format!("ok:{}", hex0(m.as_metric_str().as_bytes())),
+        Err(e) => canon_err(&e),
+    }
+}
+
+fn finish<'m, 'c, T>(mut b: MetricBuilder<'m, 'c, T>, ops: &'m [Bop], form: Form) -> String
+where
+    T: Metric + From<String>,
+{
+    for o in ops {
+        b = match o {
+            Bop::Tag(k, v) => b.with_tag(k, v),
+            Bop::TagValue(v) => b.with_tag_value(v),
+            Bop::Container(c) => b.with_container_id(c),
+            Bop::Timestamp(t) => b.with_timestamp(*t),
+            Bop::Rate(r) => b.with_sampling_rate(*r),
+        };
+    }
+    match form {
+        Form::Quiet => {
+            b.send();
+            "unit".to_string()
+        }
+        _ => ret_of(b.try_send()),
+    }
+}
+
+/// Perform one call on the real client.  Returns None when (kind, arg) is not an entry point.
+pub fn do_call(client: &StatsdClient, form: Form, kind: &str, arg: &Arg, key: &str, ops: &[Bop]) -> Option<String> {
+    macro_rules! go {
+        ($wt:ident, $plain:ident, $v:expr) => {
+            Some(match form {
+                Form::Plain => ret_of(client.$plain(key, $v)),
+                _ => finish(client.$wt(key, $v), ops, form),
+            })
+        };
+    }
+    match (kind, arg.clone()) {
+        ("c", Arg::I64(v)) => go!(count_with_tags, count, v),
+        ("c", Arg::I32(v)) => go!(count_with_tags, count, v),
+        ("c", Arg::U64(v)) => go!(count_with_tags, count, v),
+        ("c", Arg::U32(v)) => go!(count_with_tags, count, v),
+        ("c", Arg::User(v)) => go!(count_with_tags, count, v),
+        ("c", Arg::Incr) => Some(match form {
+            Form::Plain => ret_of(client.incr(key)),
+            _ => finish(client.incr_with_tags(key), ops, form),
+        }),
+        ("c", Arg::Decr) => Some(match form {
+            Form::Plain => ret_of(client.decr(key)),
+            _ => finish(client.decr_with_tags(key), ops, form),
+        }),
+        ("ms", Arg::U64(v)) => go!(time_with_tags, time, v),
+        ("ms", Arg::Dur(v)) => go!(time_with_tags, time, v),
+        ("ms", Arg::VU64(v)) => go!(time_with_tags, time, v),
+        ("ms", Arg::VDur(v)) => go!(time_with_tags, time, v),
+        ("ms", Arg::User(v)) => go!(time_with_tags, time, v),
+        ("g", Arg::U64(v)) => go!(gauge_with_tags, gauge, v),
+        ("g", Arg::F64(v)) => go!(gauge_with_tags, gauge, v),
+        ("g", Arg::User(v)) => go!(gauge_with_tags, gauge, v),
+        ("m", Arg::U64(v)) => go!(meter_with_tags, meter, v),
+        ("m", Arg::User(v)) => go!(meter_with_tags, meter, v),
+        ("h", Arg::U64(v)) => go!(histogram_with_tags, histogram, v),
+        ("h", Arg::F64(v)) => go!(histogram_with_tags, histogram, v),
+        ("h", Arg::Dur(v)) => go!(histogram_with_tags, histogram, v),
+        ("h", Arg::VU64(v)) => go!(histogram_with_tags, histogram, v),
+        ("h", Arg::VF64(v)) => go!(histogram_with_tags, histogram, v),
+        ("h", Arg::VDur(v)) => go!(histogram_with_tags, histogram, v),
+        ("h", Arg::User(v)) => go!(histogram_with_tags, histogram, v),
+        ("d", Arg::U64(v)) => go!(distribution_with_tags, distribution, v),
+        ("d", Arg::F64(v)) => go!(distribution_with_tags, distribution, v),
+        ("d", Arg::VU64(v)) => go!(distribution_with_tags, distribution, v),
+        ("d", Arg::VF64(v)) => go!(distribution_with_tags, distribution, v),
+        ("d", Arg::User(v)) => go!(distribution_with_tags, distribution, v),
+        ("s", Arg::I64(v)) => go!(set_with_tags, set, v),
+        ("s", Arg::User(v)) => go!(set_with_tags, set, v),
+        _ => None,
+    }
+}
+
+pub struct Built {
+    pub client: StatsdClient,
+    pub log: Arc<Mutex<Vec<String>>>,
+    pub handled: Arc<Mutex<Vec<String>>>,
+}
+
+pub fn parse_script(s: &str) -> VecDeque<SinkOutcome> {
+    let mut q = VecDeque::new();
+    if s != "-" {
+        for t in s.split(',') {
+            if t == "a" {
+                q.push_back(SinkOutcome::Accept);
+            } else {
+                let (k, id) = t[1..].split_once('.').expect("refuse");
+                q.push_back(SinkOutcome::Refuse(k.parse().unwrap(), id.parse().unwrap()));
+            }
+        }
+    }
+    q
+}
+
+pub fn build_client(prefix: &str, dtags: &str, dcid: &str, script: &str) -> Built {
+    let log = Arc::new(Mutex::new(vec![]));
+    let handled = Arc::new(Mutex::new(vec![]));
+    let sink = RecSink {
+        log: log.clone(),
+        script: Arc::new(Mutex::new(parse_script(script))),
+    };
+    let h2 = handled.clone();
+    let mut b = StatsdClient::builder(&unhex0(prefix), sink).with_error_handler(move |e| {
+        h2.lock().unwrap().push(canon_err(&e));
+    });
+    if dtags != "-" {
+        for t in dtags.split(',') {
+            let (h, r) = t.split_at(1);
+            if h == "k" {
+                let (k, v) = r.split_once(':').expect("dtag");
+                b = b.with_tag(unhex0(k), unhex0(v));
+            } else {
+                b = b.with_tag_value(unhex0(r));
+            }
+        }
+    }
+    if dcid != "~" {
+        b = b.with_container_id(unhex0(dcid));
+    }
+    Built {
+        client: b.build(),
+        log,
+        handled,
+    }
+}
+
+pub fn parse_form(s: &str) -> Form {
+    match s {
+        "T" => Form::TrySend,
+        "P" => Form::Plain,
+        "Q" => Form::Quiet,
+        _ => panic!("bad form"),
+    }
+}
+
+fn run_x(t: &[&str]) -> String {
+    let built = build_client(t[1], t[2], t[3], t[4]);
+    let n: usize = t[5].parse().unwrap();
+    let mut out = vec![];
+    for i in 0..n {
+        let f = &t[6 + 5 * i..11 + 5 * i];
+        let form = parse_form(f[0]);
+        let arg = parse_arg(f[2]);
+        let key = unhex0(f[3]);
+        let ops = parse_ops(f[4]);
+        let before_log = built.log.lock().unwrap().len();
+        let before_h = built.handled.lock().unwrap().len();
+        let r = catch(|| do_call(&built.client, form, f[1], &arg, &key, &ops));
+        let ret = match r {
+            Ok(Some(s)) => s,
+            Ok(None) => "notype".to_string(),
+            Err(_) => "panic".to_string(),
+        };
+        let log = built.log.lock().unwrap();
+        let emitted: Vec<String> = log[before_log..].iter().map(|s| hex0(s.as_bytes())).collect();
+        let hl = built.handled.lock().unwrap();
+        let handled: Vec<String> = hl[before_h..].to_vec();
+        out.push(format!(
+            "{},{},{}",
+            ret,
+            if emitted.is_empty() { "~".to_string() } else { emitted.join("+") },
+            if handled.is_empty() { "~".to_string() } else { handled.join("+") }
+        ));
+    }
+    out.join("|")
+}
+
+fn run_k(t: &[&str]) -> String {
+    let prefix = unhex0(t[2]);
+    let key = unhex0(t[3]);
+    let r = catch(|| match (t[1], parse_arg(t[4])) {
+        ("c", Arg::I64(v)) => Counter::new(&prefix, &key, v).as_metric_str().to_string(),
+        ("ms", Arg::U64(v)) => Timer::new(&prefix, &key, v).as_metric_str().to_string(),
+        ("g", Arg::U64(v)) => Gauge::new(&prefix, &key, v).as_metric_str().to_string(),
+        ("g", Arg::F64(v)) => Gauge::new_f64(&prefix, &key, v).as_metric_str().to_string(),
+        ("m", Arg::U64(v)) => Meter::new(&prefix, &key, v).as_metric_str().to_string(),
+        ("h", Arg::U64(v)) => Histogram::new(&prefix, &key, v).as_metric_str().to_string(),
+        ("h", Arg::F64(v)) => Histogram::new_f64(&prefix, &key, v).as_metric_str().to_string(),
+        ("d", Arg::U64(v)) => Distribution::new(&prefix, &key, v).as_metric_str().to_string(),
+        ("d", Arg::F64(v)) => Distribution::new_f64(&prefix, &key, v).as_metric_str().to_string(),
+        ("s", Arg::I64(v)) => Set::new(&prefix, &key, v).as_metric_str().to_string(),
+        _ => "notype".to_string(),
+    });
+    match r {
+        Ok(s) if s == "notype" => s,
+        Ok(s) => hex0(s.as_bytes()),
+        Err(_) => "panic".to_string(),
+    }
+}
+
+/// std's Display text of f64 bit patterns (std, not cadence), with the checks of the float
+/// hypothesis of the model: non-empty, free of the six delimiters, and — for finite values —
+/// parsing back to the bit-identical number.
+fn run_f(t: &[&str]) -> String {
+    let mut out = vec![];
+    for b in t[1].split(';') {
+        let v = f64_of_bits(b);
+        let s = format!("{}", v);
+        let clean = !s.is_empty() && !s.bytes().any(|c| b":|#,@\n".contains(&c));
+        let rt = if v.is_finite() {
+            s.parse::<f64>().map(|w| w.to_bits() == v.to_bits()).unwrap_or(false)
+        } else {
+            true
+        };
+        out.push(format!("{}:{}", hex0(s.as_bytes()), if clean && rt { "ok" } else { "bad" }));
+    }
+    out.join(";")
+}
+
+pub fn run_case(line: &str) -> String {
+    let t: Vec<&str> = line.split_whitespace().collect();
+    match t[0] {
+        "X" => run_x(&t),
+        "K" => run_k(&t),
+        "F" => run_f(&t),
+        _ => panic!("bad wire case"),
+    }
 }
